@@ -487,7 +487,7 @@ func (e *Env) queryPage(f map[string]string, page *query.PageRequest) ([]string,
 		}
 		return f[k]
 	}
-	e2 := &Env{app: e.app, ctx: e.ctx, k: e.k, users: e.users, userStr: e.userStr, upperStr: e.upperStr, pool: e.pool}
+	e2 := &Env{app: e.app, ctx: e.ctx, k: e.k, users: e.users, userStr: e.userStr, upperStr: e.upperStr, pool: e.pool, gov: e.gov}
 	switch f["q"] {
 	case "geta":
 		var r *types.QueryGetAuctionResponse
